@@ -116,7 +116,7 @@ def batch_upper(max_n, seed, count):
 def conditions(tier, seed):
     N = 4 if tier == 'quick' else 7
     return cards_conditions('c13_exact', 'c13', 'exact', indexed_shapes(N), 30 if tier == 'quick' else 90,
-                            'estimate == closed-form exact count')
+                            'estimate == closed-form exact count', flags=True)
 
 
 def batches(tier, seed):
